@@ -364,9 +364,9 @@ def main(tier, seed):
                          "parent's list and updates that parent's views (atomic); _update_src_and_sens recomputes the three typed views, cannot raise")
     rep.assume("heap-shape (reachability, exactly-once listing, acyclicity) is NOT proved for all histories: bounded stand-in only")
     fails = transaction_obligations(rep)
-    depth, budget = (3, 16000) if tier == "quick" else (4, 1500000)
+    depth, budget = (3, 16000) if tier == "quick" else (4, 250000)
     evals, states, bad = explore_histories(depth, budget, seed)
-    d2, b2 = (4, 14000) if tier == "quick" else (5, 400000)
+    d2, b2 = (4, 14000) if tier == "quick" else (5, 120000)
     e2, s2, bad2 = explore_histories(d2, b2, seed, operations_nested())
     rep.standin("forest invariant, collections-centred universe (deep nesting, cycle attempts through add / parent= / typed setters)",
                 f"1 source + 3 collections, {len(operations_nested())} operations, history length <= {d2}, budget {b2}", e2, s2,
